@@ -448,7 +448,29 @@ impl Value {
                         Value::resolve(&call.args[2], ctx)
                     };
                 }
-                if call.args.len() == 2 {
+                // Only operators evaluate their first operand here; resolving it for an ordinary
+                // function call as well would evaluate that argument twice (the function path
+                // below resolves its own arguments) and ahead of the receiver.
+                if call.args.len() == 2
+                    && matches!(
+                        call.func_name.as_str(),
+                        operators::ADD
+                            | operators::SUBSTRACT
+                            | operators::DIVIDE
+                            | operators::MULTIPLY
+                            | operators::MODULO
+                            | operators::EQUALS
+                            | operators::NOT_EQUALS
+                            | operators::LESS
+                            | operators::LESS_EQUALS
+                            | operators::GREATER
+                            | operators::GREATER_EQUALS
+                            | operators::IN
+                            | operators::LOGICAL_OR
+                            | operators::LOGICAL_AND
+                            | operators::INDEX
+                    )
+                {
                     let left = Value::resolve(&call.args[0], ctx)?;
                     match call.func_name.as_str() {
                         operators::ADD => return left + Value::resolve(&call.args[1], ctx)?,
@@ -583,7 +605,12 @@ impl Value {
                         _ => (),
                     }
                 }
-                if call.args.len() == 1 {
+                if call.args.len() == 1
+                    && matches!(
+                        call.func_name.as_str(),
+                        operators::LOGICAL_NOT | operators::NEGATE | operators::NOT_STRICTLY_FALSE
+                    )
+                {
                     let expr = Value::resolve(&call.args[0], ctx)?;
                     match call.func_name.as_str() {
                         operators::LOGICAL_NOT => return Ok(Value::Bool(!expr.to_bool())),
